@@ -1055,6 +1055,11 @@ func (t *tScreen) hideCursor() {
 }
 
 func (t *tScreen) draw() {
+	// While the terminal is handed back (Suspend) there is nothing to
+	// draw on, and the cell buffer is empty; Resume repaints everything.
+	if !t.running {
+		return
+	}
 	// clobber cursor position, because we're going to change it all
 	t.cx = -1
 	t.cy = -1
@@ -1084,6 +1089,10 @@ func (t *tScreen) draw() {
 					// actually will *draw* it.
 					t.cells.SetDirty(x+1, y, true)
 				}
+			}
+			if width < 1 {
+				// a column outside the cell buffer; always advance
+				width = 1
 			}
 			x += width - 1
 		}
